@@ -46,6 +46,23 @@ func GoExternal(name string, f func()) {
 	s.spawn(name, true, f)
 }
 
+// After replaces time.After. Durations are not modelled; a timer behaves like the polling Sleep: it is
+// delivered by a helper thread that sleeps first, i.e. it fires once the shared state differs from what
+// it was when the timer was started (or when nothing else can happen) - waiting on a timer is visible
+// waiting, not a source of unbounded executions.
+func After(d time.Duration) <-chan time.Time {
+	c := make(chan time.Time, 1)
+	if S == nil {
+		go func() { time.Sleep(d); c <- time.Now() }()
+		return c
+	}
+	GoNamed("timer", func() {
+		Sleep(d)
+		Send(c, time.Time{})
+	})
+	return c
+}
+
 // Point is a scheduling point.
 func Point() {
 	s := S
